@@ -117,7 +117,7 @@ namespace detail {
             std::size_t index, 
             result_options options) 
         {
-            const result_options require_path = result_options::path | result_options::nodups | result_options::sort;
+            const result_options require_path = result_options::path | result_options::nodups | result_options::sort | result_options::sort_descending;
             if ((options & require_path) != result_options())
             {
                 return *context.create_path_node(&last, index);
@@ -130,7 +130,7 @@ namespace detail {
             const string_view_type& identifier, 
             result_options options) 
         {
-            const result_options require_path = result_options::path | result_options::nodups | result_options::sort;
+            const result_options require_path = result_options::path | result_options::nodups | result_options::sort | result_options::sort_descending;
             if ((options & require_path) != result_options())
             {
                 return *context.create_path_node(&last, identifier);
